@@ -42,7 +42,7 @@ def gen_cases(ctx):
             for fi, f in enumerate(factors):
                 # shifts: of the order of the price level, and (last factor) 2^20 or 2^30 times it, where a shift-invariant
                 # statistic must still be unchanged within the rounding of its (now large) inputs
-                d = (r.choice([1.0, 100.0, 0.5]) if fi < len(factors) - 1 else r.choice([2.0 ** 20, 2.0 ** 30])) * (max(b if not bars else max(b[:4]) for b in base))
+                d = (r.choice([1.0, 100.0, 0.5]) if fi < len(factors) - 1 else (2.0 ** 30 if ind in ("SD", "BB") else r.choice([2.0 ** 20, 2.0 ** 30]))) * (max(b if not bars else max(b[:4]) for b in base))
                 ops = [new_op(s_, ind, pr) for s_ in range(3)]
                 for v in base:
                     ops += [mk(0, v, 1.0, 0.0), mk(1, v, f, 0.0), mk(2, v, 1.0, d)]
@@ -78,6 +78,7 @@ def check_impl(ctx, cases):
         rel = 1e-12 if c.meta["pow2"] else 1e-9
         sh = outs_of(c, 2)
         base_bars = [c.ops[i] for i, _ in a]
+        base_level = max([abs(v) for o in base_bars for v in (o[2:3] if o[0] == "n" else o[3:6])] + [1e-300])
         flowmax = 0.0
         for step, ((i, oa), (j, ob), (k, oc)) in enumerate(zip(a, b, sh)):
             va, vb, vc = f_of(oa), f_of(ob), f_of(oc)
@@ -154,6 +155,20 @@ def check_impl(ctx, cases):
                     expc = None
                 if ind == "FAST" and any(abs(x - y) > 1e-6 for x, y in zip(vc, va)):
                     expc = None if abs(va[0]) > 1e6 else va
+                # a constant shift of 2^30 price levels: every move of the shifted stream is still of the order of the ORIGINAL level l0,
+                # so an update that works on differences (Welford) errs by about u * l0 * L' per step in the variance, while one that
+                # squares the inputs errs by u * L'^2 — 2^30 times more. There the variances are compared at 1e-12 * t * l0 * L'
+                big_shift = ind in ("SD", "BB") and d >= 2.0 ** 29 * base_level
+                if expc is not None and big_shift:
+                    tolv = 1e-12 * (step + 1) * base_level * lvl2 * max(1.0, c.meta["params"][3] ** 2 if ind == "BB" else 1.0)
+                    if ind == "SD":
+                        bad_ = abs(vc[0] ** 2 - expc[0] ** 2) > tolv
+                    else:
+                        bad_ = any(abs((vc[q] - vc[0]) ** 2 - (expc[q] - expc[0]) ** 2) > tolv for q in (1, 2))
+                    if bad_:
+                        out.append(Violation("%s%s: adding %r (2^30 price levels) to every price gives %s at step %d; expected %s (variances compared at 1e-12*t*level*shifted level)"
+                                             % (ind, c.meta["params"][:3], d, vc, step + 1, expc), case=c))
+                        break
                 if expc is not None and differs(vc, expc, max(lvl2, 1.0) * (1e3 if ind == "FAST" else 1.0), 1e-9):
                     out.append(Violation("%s%s: adding %r to every price gives %s at step %d; expected %s" % (ind, c.meta["params"][:3], d, vc, step + 1, expc), case=c))
                     break
